@@ -88,6 +88,19 @@ def run(db, tier):
         gs2 = flow.guards_before(g, acc2, dg)
         rc = [c for c in gs2 if flow.has_field_source(c["a"] | c["b"], "JmpInfo", "dest_refcount")]
         rep.check(bool(rc), "R-GUARD-CHAIN", "else-path|dest_refcount", g.loc, "a label with other referrers is not dropped", "dest_refcount is not tested on the else / else-if path")
+        # the accepted reference counts must be exactly {<= 1}: evaluate the guard for 0..4
+        accepted = None
+        for c in rc:
+            ka, kb = flow.const_of(c["a"]), flow.const_of(c["b"])
+            when = flow.accepted_when(g, c, acc2)
+            if when is None or (ka is None and kb is None):
+                continue
+            OPS = {"Gt": lambda x, y: x > y, "Ge": lambda x, y: x >= y, "Lt": lambda x, y: x < y, "Le": lambda x, y: x <= y, "Eq": lambda x, y: x == y, "Ne": lambda x, y: x != y}
+            ok_vals = set(v for v in range(0, 5) if (OPS[c["op"]](v, kb) if kb is not None else OPS[c["op"]](ka, v)) in when)
+            accepted = ok_vals if accepted is None else accepted & ok_vals
+        rep.check(accepted is not None and accepted <= {0, 1}, "R-GUARD-CHAIN", "else-path|dest_refcount bound", g.loc,
+                  "accepted reference counts: %s" % (sorted(accepted) if accepted is not None else None),
+                  "an else/else-if label with reference count %s is accepted: other jumps to the label would lose their target" % (sorted(accepted - {0, 1}) if accepted else "?"))
         t2 = field_is_some_guards(g, dg, acc2, "time_arg")
         rep.check(len(set(x[1] for x in t2)) >= 2, "R-GUARD-CHAIN", "else-path|both time_args", g.loc, "time_arg of both the conditional and the unconditional jump is tested",
                   "only %d distinct jump(s) have their time_arg tested on the else path" % len(set(x[1] for x in t2)))
@@ -116,6 +129,66 @@ def run(db, tier):
           and any(s[0] == "field" and s[1] == "core::option::Option::Some" for s in c["a"] | c["b"])]
     rep.check(len(ne) >= 2, "R-GUARD-CHAIN", "dest-vs-known-end|both-equalities", g.loc, "both the no-else jump and the jumps-to-end are compared with the known end",
               "expected two equality tests of destinations against the known end label, found %d" % len(ne))
+
+    # direction of BOTH jumps on the else path (distinct JmpInfo lookups)
+    if len(accepts) == 2:
+        dsrc = set()
+
+        def jump_of(side):
+            for x in side:
+                if x[0] == "call" and x[1].endswith("direction_given_src"):
+                    recv = dg._op_sources(g.blocks[x[2]]["t"]["a"][0], 0, set(), True)
+                    dsrc.add(tuple(sorted(y[2] for y in recv if y[0] == "call" and y[1].endswith("::get"))))
+        for c in flow.guards_before(g, acc2, dg):
+            jump_of(c["a"])
+            jump_of(c["b"])
+        for bi, t in flow.bool_call_guards(g, acc2, "PartialEq::eq", dg) + flow.bool_call_guards(g, acc2, "PartialEq::ne", dg):
+            jump_of(dg._op_sources(t["a"][0], 0, set(), True))
+            jump_of(dg._op_sources(t["a"][1], 0, set(), True))
+        rep.check(len(dsrc) >= 2, "R-GUARD-CHAIN", "else-path|both directions", g.loc, "direction of both the conditional and the unconditional jump is tested",
+                  "only %d distinct jump(s) have their direction tested on the else path (a backwards jump-to-end would be absorbed)" % len(dsrc))
+
+    # the block condition is the COMPLEMENT of the jump condition
+    from rules import hirq
+    Lg = hirq.lets(g)
+    conds = [n for n in hir_walk(g.hir) if n.get("k") == "Struct" and n.get("p", "").endswith("CondBlockInfo")]
+    rep.check(len(conds) == 1, "R-GUARD-CHAIN", "cond|construction site", g.loc, "one CondBlockInfo construction", "expected one CondBlockInfo construction, found %d" % len(conds))
+    for cb in conds:
+        ce = dict((nm, e) for nm, e in cb["fs"]).get("cond")
+        binops = [n for n in hir_walk(ce) if n.get("k") == "Call" and (n.get("f") or "").endswith("Expr::BinOp")] if ce else []
+        ok = False
+        detail = "the condition of the rebuilt block is not built as BinOp(a, <op>, b)"
+        if len(binops) == 1 and len(binops[0]["a"]) == 3:
+            opn = binops[0]["a"][1]
+            names = [v for t, v in hirq.features(g, opn, {}) if t == "local"]
+            init = hirq.let_before(Lg, names[0], opn.get("ln", 10 ** 9)) if len(names) == 1 else None
+            if init is not None:
+                calls = [c["f"] for c in hirq.call_seq(init)]
+                allowed = ("negate_comparison", "ok_or", "Try::branch", "from_residual", "ok_or_else")
+                extra = [c for c in calls if not c.endswith(allowed)]
+                has_closure = any(n.get("k") == "Closure" for n in hir_walk(init))
+                ok = any(c.endswith("BinOpKind::negate_comparison") for c in calls) and not extra and not has_closure
+                detail = "the operator of the rebuilt block comes from %s%s" % ([c.rsplit("::", 1)[-1] for c in calls], " through a closure" if has_closure else "")
+            else:
+                detail = "the operator of the rebuilt block is %s, not the result of negate_comparison" % names
+        rep.check(ok, "R-GUARD-CHAIN", "cond|complemented operator", "%s:%d" % (g.file, cb["ln"]), "`if (a op b) goto skip` becomes `if (a !op b) { .. }`", detail)
+
+    # interrupt labels: gather_cond_chain accepts only after reject_potentially_confusing_cond_chain
+    gc = db.fn(DL + "gather_cond_chain")
+    rep.fn(gc)
+    rj = flow.calls_to(gc, "reject_potentially_confusing_cond_chain")
+    errs = flow.error_exit_blocks(gc)
+    okret = [bi for bi, b in enumerate(gc.blocks) if b["t"]["k"] == "ret"]
+    bypass = gc.reachable_from(0, avoid=set(b for b, _ in rj) | errs)
+    rep.check(bool(rj) and not any(r in bypass for r in okret), "R-GUARD-CHAIN", "gather_cond_chain|interrupt check on every accept", gc.loc,
+              "every Ok path passes reject_potentially_confusing_cond_chain", "a chain can be accepted without the interrupt-label check")
+    rf = db.fn(DL + "reject_potentially_confusing_cond_chain")
+    rep.fn(rf)
+    drf = flow.Defs(rf)
+    oks = [bi for bi, b in enumerate(rf.blocks) for s_ in b["s"] if s_["r"] == "agg" and (s_.get("adt") or "").endswith("Result::Ok")]
+    anyg = [x for a_ in oks for x in flow.bool_call_guards(rf, a_, "Iterator::any", drf)]
+    rep.check(bool(oks) and bool(anyg), "R-GUARD-CHAIN", "reject|interrupt-range", rf.loc, "a chain containing an interrupt label is rejected",
+              "the interrupt-label range test no longer guards acceptance of a chain")
 
     # ---------------- JmpInfo::from_stmt
     j = db.fn(JI + "::from_stmt")
